@@ -32,6 +32,10 @@ theorem int_sum_Ico_consecutive (f : ℤ → ℝ) {a b c : ℤ} (hab : a ≤ b) 
     ∑ k ∈ Finset.Ico a b, f k + ∑ k ∈ Finset.Ico b c, f k = ∑ k ∈ Finset.Ico a c, f k := by
   rw [← Finset.Ico_union_Ico_eq_Ico hab hbc, Finset.sum_union (Finset.Ico_disjoint_Ico_consecutive a b c)]
 
+theorem int_sum_Ico_consecutive_gen {M : Type*} [AddCommMonoid M] (f : ℤ → M) {a b c : ℤ} (hab : a ≤ b) (hbc : b ≤ c) :
+    ∑ k ∈ Finset.Ico a b, f k + ∑ k ∈ Finset.Ico b c, f k = ∑ k ∈ Finset.Ico a c, f k := by
+  rw [← Finset.Ico_union_Ico_eq_Ico hab hbc, Finset.sum_union (Finset.Ico_disjoint_Ico_consecutive a b c)]
+
 theorem int_sum_Ico_succ (f : ℤ → ℝ) {a b : ℤ} (hab : a ≤ b) :
     ∑ k ∈ Finset.Ico a (b+1), f k = ∑ k ∈ Finset.Ico a b, f k + f b := by
   rw [← int_sum_Ico_consecutive f hab (by linarith : b ≤ b+1)]
@@ -236,6 +240,8 @@ class LeanPrinter(ast.NodeVisitor):
             try:
                 conds = []
                 for v, r in zip(names, rngs):
+                    if isinstance(r, ast.Name) and r.id == "ints":
+                        continue
                     lo, hi = self._range(r)
                     conds.append("%s ≤ %s" % (lo, v))
                     conds.append("%s < %s" % (v, hi))
@@ -247,8 +253,8 @@ class LeanPrinter(ast.NodeVisitor):
                         del self.bound[v]
             binder = " ".join("(%s : ℤ)" % v for v in names)
             if f == "forall":
-                return "(∀ %s, %s → %s)" % (binder, " → ".join(conds), body)
-            return "(∃ %s, %s ∧ %s)" % (binder, " ∧ ".join(conds), body)
+                return "(∀ %s, %s)" % (binder, " → ".join(conds + [body]))
+            return "(∃ %s, %s)" % (binder, " ∧ ".join(conds + [body]))
         if f == "implies":
             return "(%s → %s)" % (self.p(n.args[0]), self.p(n.args[1]))
         if f == "iff":
